@@ -213,6 +213,15 @@ def loop_form(F, fn, A):
     it_ref = NX[2][0]
     # the iterator variable: &mut local initialised before the loop
     src = it_ref[1] if it_ref[0] == "ref" else it_ref
+    if src[0] == "opq":
+        # the iterator variable is advanced inside the loop, so at the call it is a loop-carried value: what the loop walks is
+        # the variable's value on entry to the loop (read at the end of the loop's only outside predecessor)
+        from . import seq as SQ
+        L = SQ.VecEval(None, A).root_local(nt["args"][0])
+        pre = [p_ for (p_, _l) in b.pred[head] if p_ not in loop]
+        others = [bb_ for bb_, t_ in b.calls() if bb_ in loop and bb_ != nbb and any(SQ.VecEval(None, A).root_local(a_) == L for a_ in t_["args"])]
+        if L is not None and len(pre) == 1 and not others:
+            src = N(A.tb.read(L, (), (pre[0], len(b.stmts(pre[0])))))
     ex = CH.exits(A)
     somes = [e for e in ex if e.kind == "Some"]
     nones = [e for e in ex if e.kind == "None"]
